@@ -33,10 +33,10 @@ ASSUMPTIONS = [
 HEADER = "HardDoubleBass"
 
 
-def _check_track(ctx: Ctx, res, tempo, items, rc, exhaustive_hint=False):
+def _check_track(ctx: Ctx, res, tempo, items, rc, exhaustive_hint=False, fmt=0):
     exp = expected_notes(res, items)
     lines = [S.track_line(it) for it in items]
-    chart, tr = T.parse_track(ctx, res, tempo, lines, HEADER, rc)
+    chart, tr = T.parse_track(ctx, res, tempo, lines, HEADER, rc, fmt=fmt)
     if tr is None:
         return None
     if not T.compare_notes(ctx, tr, exp, rc, {"ticks", "lanes", "sustain"}):
@@ -112,7 +112,8 @@ def check_table(ctx: Ctx, case) -> None:
         items += G.render_note_items(tick, mask, lens, tap, forced)
         tick += 131
     rc = {"res": TABLE_RES, "tempo": TABLE_TEMPO, "case": case}
-    info = _check_track(ctx, TABLE_RES, TABLE_TEMPO, items, rc)
+    info = _check_track(ctx, TABLE_RES, TABLE_TEMPO, items, rc,
+                        fmt=(case["chunk"] + 1) * 7 if case["chunk"] % 3 == 1 else 0)
     if info is None:
         return
     # each pattern is one distinct case by construction
@@ -175,7 +176,8 @@ def _tracks(draw, ctx):
     phrases = [[t, min(max_tick - t, ln)] for t, ln in
                sorted(draw(st.lists(st.tuples(tick_st, st.integers(0, 2000)), max_size=2)))]
     items = G.merge_track_items(notes, phrases, [])
-    return {"res": tmap["res"], "tempo": tmap["tempo"], "items": items}
+    return {"res": tmap["res"], "tempo": tmap["tempo"], "items": items,
+            "fmt": draw(st.one_of(st.just(0), st.just(0), st.integers(1, 10 ** 6)))}
 
 
 def strat_tracks(ctx: Ctx):
@@ -184,12 +186,12 @@ def strat_tracks(ctx: Ctx):
 
 def check_tracks(ctx: Ctx, case) -> None:
     rc = case
-    info = _check_track(ctx, case["res"], case["tempo"], case["items"], rc)
+    info = _check_track(ctx, case["res"], case["tempo"], case["items"], rc, fmt=case.get("fmt", 0))
     if info is None:
         ctx.note(case)
         return
     nt = info["unequal"] or info["orange"] or info["crossing"] > 0 or info["longest_not_last"]
-    ctx.note([case["res"], case["tempo"], info["lines"]], nontrivial=nt,
+    ctx.note([case["res"], case["tempo"], info["lines"], case.get("fmt", 0)], nontrivial=nt,
              classes=[k for k in ("unequal", "orange", "longest_not_last") if info[k]]
              + (["crossing"] if info["crossing"] else []) + (["empty_track"] if info["n"] == 0 else []),
              sample={"res": case["res"], "tempo": case["tempo"][:5], "lines": info["lines"][:16]})
